@@ -355,6 +355,14 @@ func (x *cx) stage(pre string, base int64, stop int, rd io.Reader, hdr int, toEn
 		}
 	}
 	s.Close()
+	// the stop: the offsets are still there to be read once the scanner is closed (the
+	// library's own restart example closes first and then seeks to FullyScannedBytes)
+	if !toEnd && stop > 0 {
+		if f2, p2 := s.FullyScannedBytes(), s.PreviousFullyScannedBytes(); f2 != F || p2 != P {
+			x.fail(pre+"offsets-after-close", fmt.Sprintf("reader started at %d: after %d objects FullyScannedBytes / PreviousFullyScannedBytes were %d / %d, after Close they are %d / %d", base, stop, F, P, f2, p2))
+			return
+		}
+	}
 	if d := pbfgen.DiffObjects(got, x.objs[from:from+stop]); d != "" {
 		x.fail(pre+"prefix", d)
 		return
